@@ -4,7 +4,9 @@
    rationals, the regressors' model is evaluated in Q (reduced after every operation), the CP_PLSR model in
    binary fixed point with 70 fractional bits (Zfx below), and compared with tolerance. *)
 From Coq Require Import List Arith ZArith QArith Bool.
-From TLV Require Import Base.Shape Base.PyList Base.Tensor Base.Ops Model.Base Model.Regress Model.RegressObj Corr.Common.
+From TLV Require Import Base.Shape Base.PyList Base.Tensor Base.Ops Model.Base Model.Regress Model.RegressObj Model.RegressObj2 Corr.Common.
+(* support of the ridge-block source tie (harness/props/C19_blocks.py compiles generated files against it) *)
+From TLV Require Model.RegressSrc.
 Import ListNotations.
 
 Inductive qcall :=
@@ -12,6 +14,10 @@ Inductive qcall :=
 | QFitTransform (X Y : tensor Q) (itape : list (tensor Q * list (tensor Q))) (btape : list (list Q))
 (* a fit during which the lstsq call of component c raises (injected LinAlgError) *)
 | QFitRaise (c : nat) (X Y : tensor Q) (itape : list (tensor Q * list (tensor Q))) (btape : list (list Q))
+(* a fit during which the initialize_cp call of component c raises (injected LinAlgError) *)
+| QFitInitRaise (c : nat) (X Y : tensor Q) (itape : list (tensor Q * list (tensor Q))) (btape : list (list Q))
+(* score(X, Y) for a matrix Y *)
+| QScore (X Y : tensor Q)
 | QPredict (X : tensor Q)
 | QTransform (X : tensor Q) (Yo : option (tensor Q))
 | QSetParams (ncomp n_iter : nat) (tol : Q).
@@ -282,6 +288,20 @@ Fixpoint plsr_seq (o : pobj (F:=Z)) (cs : list qcall) : list (pout (F:=Z)) :=
                    | FitRaisePartial a => (mkPobj (po_prm o) (Some a), PRaise)
                    | FitOk a => (mkPobj (po_prm o) (Some a), PSelf)
                    end
+               | QFitInitRaise c X Y it bt =>
+                   match plsr_fit_entry_init_raising Zfx zsqrt (fx_init it) (fx_solve bt) c (po_prm o) (t_to_fx X) (t_to_fx Y) with
+                   | FitRaiseClean => (o, PRaise)
+                   | FitRaisePartial a => (mkPobj (po_prm o) (Some a), PRaise)
+                   | FitOk a => (mkPobj (po_prm o) (Some a), PSelf)
+                   end
+               | QScore X Y =>
+                   (o, match po_attrs o with
+                       | None => PRaise
+                       | Some a => match plsr_score_entry Zfx (po_prm o) a (t_to_fx X) (t_to_fx Y) with
+                                   | Ok v => PTensor (mk [] [v])
+                                   | Err => PRaise
+                                   end
+                       end)
                | QPredict X => pstep Zfx zsqrt (fx_init []) (fx_solve []) o (PPredict (t_to_fx X))
                | QTransform X Yo => pstep Zfx zsqrt (fx_init []) (fx_solve []) o
                                       (PTransform (t_to_fx X) (match Yo with Some Y => Some (t_to_fx Y) | None => None end))
